@@ -312,5 +312,18 @@ func checkC08(e *RunEnv) *CheckResult {
 		},
 		CheckTrans: c08Trans,
 	}
-	return runSpec(e, spec, nil)
+	var lim int
+	return runSpecWith(e, spec, func(x *Explorer) {
+		// 200 tracked files restored under a limit of 64 open files: a command that keeps what it wrote open runs dry
+		base := x.BuildState(seedS0())
+		if base == nil {
+			return
+		}
+		steps := hugeDirSteps(200)
+		steps = append(steps, Write("huge/file-0003.txt", "dirty\n"), Delete("huge/file-0100.txt"), Rmdir("v1"),
+			Run("reset", "--hard", "HEAD@{0}").WithEnv("VERIF_NOFILE=64").WithTags("mode:--hard", "open-file-limit"), Run("reset", "--hard", "HEAD@{1}").WithEnv("VERIF_NOFILE=64").WithTags("mode:--hard", "open-file-limit"))
+		lim = x.RunCases([]Case{{Base: base, BaseName: "S0", BaseSeed: seedS0(), Steps: steps}})
+	}, func(x *Explorer, cov map[string]interface{}) {
+		cov["open_file_limit_cases"] = lim
+	})
 }
